@@ -54,12 +54,15 @@ def main():
         t0 = time.time()
         try:
             ob = _obs(module, tier)[name]
-            from vf import engine
+            if getattr(ob, "runner", None) is not None:  # non-CrossHair obligation (E3: z3 BMC)
+                res = ob.runner(known, int(seed))
+            else:
+                from vf import engine
 
-            funcs = _functions_reached(ob, known)
-            res = engine.explore(ob, known, seed=int(seed))
-            res["functions"] = funcs
-            res["expect"] = sorted(ob.expect)
+                funcs = _functions_reached(ob, known)
+                res = engine.explore(ob, known, seed=int(seed))
+                res["functions"] = funcs
+                res["expect"] = sorted(ob.expect)
         except BaseException as e:  # harness construction error
             import traceback
 
@@ -77,7 +80,10 @@ def main():
 
         ob = _obs(module, tier)[name]
         assert "crosshair" not in sys.modules, "replay must run without CrossHair"
-        oc, vio = run_concrete(ob.fn, dec(args), K.load(prop))
+        if getattr(ob, "replayer", None) is not None:
+            oc, vio = ob.replayer(args, K.load(prop))
+        else:
+            oc, vio = run_concrete(ob.fn, dec(args), K.load(prop))
         print(json.dumps({"outcome": oc, "violation": vio}))
         return
     raise SystemExit("usage")
